@@ -23,7 +23,6 @@ from __future__ import annotations
 
 import numpy as np
 
-from mc.drivers import datasets as D
 from mc.drivers import framing as F
 from mc.drivers import legal
 from mc.drivers import pipeline as P
@@ -54,6 +53,9 @@ ASSUMPTIONS = [
     "not local steps in the sense of the statement and are not generated",
     "bilateral windows are odd (sigma_space 0.7 -> 3, 1.4 -> 5); the crop and the whole image get the same scalar "
     "interval; both views are cropped by the same window",
+    "a re-framed run that raises SystemError/ZeroDivisionError inside the quadratic refinement (anticipated defect "
+    "A2 of C06: three equal costs, which a crop can create near its border) is counted trivial; any other exception "
+    "of a re-framed run while the whole image runs is a violation",
     "compared: disparity_map and validity_mask (left, and right when produced); confidence bands are not part of the "
     "statement",
     "quick: pipelines of length <= 4, 6 crops per case; thorough: length <= 5, 8-96 crops per case (DESIGN asked "
@@ -278,6 +280,19 @@ def _violation(case, arr, whole_obs_cache, clause, bad, window, keep, flip):
                   f"{[(s, v, n) for s, v, n in bad]}{where}"}
 
 
+def _is_a2(case, arr, error, kw):
+    """
+    anticipated defect A2 (property C06): the quadratic refinement raises on three equal costs.  A crop changes the
+    costs of the pixels near its border (outside every cone interior), so the triple can exist in the crop only;
+    the run then has no values to compare and says nothing about locality.
+    """
+    if type(error[1]).__name__ not in ("SystemError", "ZeroDivisionError"):
+        return False
+    obs = _run(arr, case, observe=True, **kw)
+    names = case["pipe"]
+    return len(obs.steps) < len(names) and names[len(obs.steps)] == "quad"
+
+
 def _raises(case, arr, clause, error, kw, what):
     """the whole image runs but the re-framed pair raises: key by the step that raises and the exception type"""
     obs = _run(arr, case, observe=True, **kw)
@@ -303,7 +318,6 @@ def run_case(case):
     cache = [None]
     n = 0
     trivial = 0
-    pixels = 0
     distinct_vals = set()
     for k in case["crops"]:
         window, keep = crop_of(k)
@@ -315,6 +329,9 @@ def run_case(case):
         n += 1
         crop = _run(arr, case, window=window, keep_coords=keep)
         if crop.error:
+            if _is_a2(case, arr, crop.error, dict(window=window, keep_coords=keep)):
+                trivial += 1
+                continue
             viol.append(_raises(case, arr, "crop-invariance", crop.error,
                                 dict(window=window, keep_coords=keep),
                                 f"crop {window} (coordinates {'kept' if keep else 'restarted'})"))
@@ -325,14 +342,15 @@ def run_case(case):
             continue
         bad = _compare_final(whole, crop, region, (window[0], window[1]), False)
         rl, rh, cl, ch = region
-        pixels += (rh - rl) * (ch - cl) * len(_products(whole))
         distinct_vals.update(np.unique(whole.left["disparity_map"].data[rl:rh, cl:ch]).tolist()[:4])
         if bad:
             viol.append(_violation(case, arr, cache, "crop-invariance", bad, window, keep, False))
     # ---- vertical flip
     n += 1
     flipped = _run(arr, case, flip=True)
-    if flipped.error:
+    if flipped.error and _is_a2(case, arr, flipped.error, dict(flip=True)):
+        trivial += 1
+    elif flipped.error:
         viol.append(_raises(case, arr, "flip-equivariance", flipped.error, dict(flip=True), "flipped pair"))
     else:
         bad = _compare_final(whole, flipped, (0, case["ny"], 0, case["nx"]), (0, 0), True)
@@ -377,6 +395,9 @@ def finalize(tier, seed, ctx):
     cov = compared_pixels(tier, seed)
     if ctx.get("budget_left", 1) <= 0:
         cov = {k + "_planned": v for k, v in cov.items()}
+    cov["note"] = ("computed from the enumerated spaces: a pixel is counted when its cone lies inside the crop; exact "
+                   "when the enumeration is exhaustive, except that a case whose whole-image run raises (A2, about "
+                   "1.5 % of the cases) compares nothing")
     return {"coverage": {"pixels": cov}}
 
 
